@@ -462,4 +462,139 @@ theorem decodeNat128_spec (bs : Bytes) :
   | none => rfl
   | some x => obtain ⟨p, r⟩ := x; simp
 
+
+/-! ## signed numbers and the encoders -/
+
+theorem toUInt8_toNat_lt (n : Nat) (h : n < 256) : (n.toUInt8).toNat = n := toUInt8_toNat_of_lt h
+
+/-! ### signed: the minimal encoding is terminated and denotes the number -/
+
+theorem sleb_ne_nil (i : Int) : sleb i ≠ [] := by
+  rw [sleb]; split <;> simp
+
+theorem signBit_cons (b : UInt8) (r : Bytes) (h : r ≠ []) : signBit (b :: r) = signBit r := by
+  cases r with
+  | nil => exact absurd rfl h
+  | cons c r' => rfl
+
+theorem terminated_cons (b : UInt8) (r : Bytes) (h : r ≠ []) : Terminated (b :: r) ↔ (128 ≤ b.toNat ∧ Terminated r) := by
+  cases r with
+  | nil => exact absurd rfl h
+  | cons c r' => simp [Terminated]
+
+theorem sleb_terminated (i : Int) : Terminated (sleb i) := by
+  induction i using sleb.induct with
+  | case1 i h =>
+    rw [sleb, if_pos h]
+    simp only [Terminated]
+    rw [toUInt8_toNat_lt _ (by omega)]
+    omega
+  | case2 i h ih =>
+    rw [sleb, if_neg h]
+    rw [terminated_cons _ _ (sleb_ne_nil _)]
+    refine ⟨?_, ih⟩
+    rw [toUInt8_toNat_lt _ (by omega)]
+    omega
+
+theorem sval_sleb (i : Int) : sval (sleb i) = i := by
+  induction i using sleb.induct with
+  | case1 i h =>
+    rw [sleb, if_pos h]
+    have hb : ((i % 128).toNat.toUInt8).toNat = (i % 128).toNat := toUInt8_toNat_lt _ (by omega)
+    simp only [sval, uval, signBit, hb, List.length_cons, List.length_nil]
+    by_cases hneg : i < 0
+    · have : 64 ≤ (i % 128).toNat % 128 := by omega
+      simp only [this, decide_true, if_true]
+      omega
+    · have : ¬ 64 ≤ (i % 128).toNat % 128 := by omega
+      simp only [this, decide_false, Bool.false_eq_true, if_false]
+      omega
+  | case2 i h ih =>
+    rw [sleb, if_neg h]
+    have hb : (((i % 128).toNat + 128).toUInt8).toNat = (i % 128).toNat + 128 := toUInt8_toNat_lt _ (by omega)
+    have hs := signBit_cons ((i % 128).toNat + 128).toUInt8 (sleb (i / 128)) (sleb_ne_nil _)
+    unfold sval at ih ⊢
+    rw [hs]
+    simp only [uval, hb, List.length_cons]
+    have hpow : (2 : Int) ^ (7 * ((sleb (i / 128)).length + 1)) = 128 * (2 : Int) ^ (7 * (sleb (i / 128)).length) := by
+      rw [Nat.mul_add, Int.pow_add]; simp; omega
+    rw [hpow]
+    split
+    · rename_i hsb
+      simp only [hsb, if_true] at ih
+      push_cast
+      omega
+    · rename_i hsb
+      have hsb' : signBit (sleb (i / 128)) = false := by simpa using hsb
+      simp only [hsb', Bool.false_eq_true, if_false] at ih
+      push_cast
+      omega
+
+theorem specReadInt_sleb (i : Int) (r : Bytes) : specReadInt (sleb i ++ r) = some (i, r) := by
+  unfold specReadInt
+  rw [splitLeb_append _ _ (sleb_terminated i)]
+  simp [sval_sleb]
+
+open Candid.Leb.Impl
+
+theorem or80_byte : ∀ x, x < 256 → x ||| 0x80 = x % 128 + 128 := by decide +kernel
+
+/-- the encoder loop of `encode_nat` / `leb128::write::unsigned` produces the minimal encoding -/
+theorem encodeNatLoop_eq_uleb (n : Nat) : encodeNatLoop n = uleb n := by
+  induction n using uleb.induct with
+  | case1 n h =>
+    rw [uleb, if_pos h, encodeNatLoop]
+    have : n >>> 7 = 0 := by rw [shr7]; omega
+    simp only [this, ne_eq, not_true_eq_false, dite_false]
+    rw [and7f, Nat.mod_eq_of_lt h]
+  | case2 n h ih =>
+    rw [uleb, if_neg h, encodeNatLoop]
+    have hne : n >>> 7 ≠ 0 := by rw [shr7]; omega
+    simp only [hne, ne_eq, not_false_eq_true, dite_true]
+    rw [shr7, ih, and7f, or80_lt _ (Nat.mod_lt _ (by decide))]
+
+/-- the encoder loop of `encode_int` / `leb128::write::signed` produces the minimal encoding -/
+theorem encodeIntLoop_eq_sleb (i : Int) : encodeIntLoop i = sleb i := by
+  induction i using sleb.induct with
+  | case1 i h =>
+    rw [sleb, if_pos h, encodeIntLoop]
+    have e1 : i >>> 6 = i / 64 := by simp [Int.shiftRight_eq_div_pow]
+    have : i / 64 = 0 ∨ i / 64 = -1 := by omega
+    simp only [e1, this, if_true]
+    rw [and7f]; congr 2; omega
+  | case2 i h ih =>
+    rw [sleb, if_neg h, encodeIntLoop]
+    have e1 : i >>> 6 = i / 64 := by simp [Int.shiftRight_eq_div_pow]
+    have e2 : (i / 64) >>> 1 = i / 128 := by simp [Int.shiftRight_eq_div_pow]; omega
+    have : ¬ (i / 64 = 0 ∨ i / 64 = -1) := by omega
+    simp only [e1, this, if_false, e2, ih]
+    congr 2
+    rw [or80_byte _ (by omega)]
+    omega
+
+open Candid.Leb.Impl
+
+theorem toRadix_ne_nil (n : Nat) : toRadixLE128 n ≠ [] := by
+  rw [toRadixLE128]; split <;> simp
+
+theorem markCont_toRadix (n : Nat) : markCont (toRadixLE128 n) = uleb n := by
+  induction n using uleb.induct with
+  | case1 n h => rw [uleb, if_pos h, toRadixLE128, if_pos h]; rfl
+  | case2 n h ih =>
+    rw [uleb, if_neg h, toRadixLE128, if_neg h]
+    cases hr : toRadixLE128 (n / 128) with
+    | nil => exact absurd hr (toRadix_ne_nil _)
+    | cons d r =>
+      rw [hr] at ih
+      simp only [markCont]
+      rw [ih, or80_lt _ (Nat.mod_lt _ (by decide))]
+
+/-- `Nat::encode`, both paths (u64 through the leb128 crate, larger through radix-128 groups) -/
+theorem natEncode_eq_uleb (n : Nat) : natEncode n = uleb n := by
+  unfold natEncode
+  split
+  · exact encodeNatLoop_eq_uleb n
+  · exact markCont_toRadix n
+
+
 end Candid.Leb
